@@ -28,6 +28,14 @@ def injections(d, ver, cat, tables):
             yield (f'embedded object {pn}[0]', 'custom property', put([pn, 0, 'x_inner'], 1))
         if pv['kind'] == 'EmbeddedObjectProperty' and isinstance(v, dict):
             yield (f'embedded object {pn}', 'custom property', put([pn, 'x_inner'], 1))
+            yield (f'embedded object {pn}', 'custom property through a nested custom_properties member', put([pn, 'custom_properties'], {'x_inner': 1}))
+        if pv['kind'] == 'ListProperty' and pv['list_of'].get('kind') == 'embedded' and isinstance(v, list) and v and isinstance(v[0], dict):
+            yield (f'embedded object {pn}[0]', 'custom property through a nested custom_properties member', put([pn, 0, 'custom_properties'], {'x_inner': 1}))
+        if pv['kind'] == 'ExtensionsProperty' and isinstance(v, dict):
+            for ek in v:
+                yield (f'extension {ek}', 'custom property through a nested custom_properties member', put([pn, ek, 'custom_properties'], {'x_ext_custom': 1}))
+                for k2, v2 in v[ek].items():
+                    if isinstance(v2, dict) and k2 in ('optional_header',): yield (f'extension {ek}.{k2}', 'custom property through a custom_properties member of an embedded object inside the extension', put([pn, ek, k2, 'custom_properties'], {'x_deep': 1}))
         if pv['kind'] == 'HashesProperty' and isinstance(v, dict):
             yield (f'hash dictionary {pn}', 'custom algorithm before a specification one', put([pn], dict([('x-my-hash', 'abc')] + list(v.items()))))
             yield (f'hash dictionary {pn}', 'custom algorithm after a specification one', put([pn], dict(list(v.items()) + [('foo', 'abc')])))
@@ -68,15 +76,31 @@ def run(chk):
                        'serialization is refused; unregistered top-level types (with every kind of extension entry) and custom content in 6 input forms through parse, '
                        'Environment.parse, Bundle, MemoryStore / MemorySink / FileSystemStore created with allow_custom=False.  The accumulation loop of _STIXBase.__init__ is bounded only.')
     chk.assume('the documented custom_properties keyword is a known finding (admits custom properties in strict mode)')
-    for c in (K.list_clean_contract(), K.hashes_clean_contract(), K.reference_clean_contract(), K.extensions_clean_contract(), KP.dict_to_stix2_contract()):
+    for c in (K.list_clean_contract(), K.hashes_clean_contract(), K.reference_clean_contract(), K.extensions_clean_contract(), KP.dict_to_stix2_contract(), KP.init_prefix_contract()):
         chk.prove(c); chk.canary(c)
     tabs = {v: T.frozen(v) for v in ('2.0', '2.1')}
+
+    def nested_corpus():
+        """objects with directly embedded objects and predefined extensions (places the table-driven generator does not populate)"""
+        for ver in ('2.0', '2.1'):
+            sv = {'spec_version': '2.1'} if ver == '2.1' else {}
+            def oid(t): return {'id': t + '--' + G.UUID} if ver == '2.1' else {}
+            yield (ver, f'{ver}:observables:x509-certificate:with v3 extensions', 'observables', dict({'type': 'x509-certificate', 'serial_number': '1', 'x509_v3_extensions': {'basic_constraints': 'c', 'key_usage': 'k'}}, **sv, **oid('x509-certificate')))
+            yield (ver, f'{ver}:observables:file:with pe binary extension', 'observables', dict({'type': 'file', 'name': 'f', 'extensions': {'windows-pebinary-ext': {'pe_type': 'exe', 'optional_header': {'magic_hex': '010b', 'size_of_code': 1},
+                                                                                                                          'sections': [{'name': 's', 'size': 1}]}}}, **sv, **oid('file')))
+            yield (ver, f'{ver}:observables:file:with ntfs extension', 'observables', dict({'type': 'file', 'name': 'f', 'extensions': {'ntfs-ext': {'sid': 's', 'alternate_data_streams': [{'name': 'n', 'size': 1}]}}}, **sv, **oid('file')))
+            yield (ver, f'{ver}:observables:process:with windows process extension', 'observables', dict({'type': 'process', 'pid': 1, 'extensions': {'windows-process-ext': {'aslr_enabled': True, 'startup_info': {'abc': 'b'}}}}, **sv, **oid('process')))
 
     def cases():
         for ver in ('2.0', '2.1'):
             for label, cat, cls, kw, o, d in O.corpus(ver, alts=(0,), only=lambda l: l.endswith((':minimal', ':all-optional'))):
                 for site, kind, inj in injections(d, ver, cat, tabs[ver]):
                     yield (ver, label, cat, site, kind, inj)
+        for ver, label, cat, d in nested_corpus():
+            try: parse(copy.deepcopy(d), cat, ver, False)
+            except Exception as ex:
+                chk.faults.append(f'nested corpus object {label} is not accepted: {type(ex).__name__}: {str(ex)[:120]}'); continue
+            for site, kind, inj in injections(d, ver, cat, tabs[ver]): yield (ver, label, cat, site, kind, inj)
 
     def parse(x, cat, ver, ac):
         return O.strict_parse(x, cat if x.get('type') not in ('bundle', 'observed-data') else 'objects', ver, allow_custom=ac)
@@ -103,7 +127,9 @@ def run(chk):
         if o.has_custom == strict_ok:
             return (f'flag#{tag}', f'{label}: {kind} at {site}: has_custom={o.has_custom} but a strict re-parse of the serialization ' + ('succeeds' if strict_ok else 'is refused'), {'input': inj, 'serialization': text[:300]})
     cc = list(cases())
-    if chk.tier == 'quick' and len(cc) > 9000: chk.rng.shuffle(cc); cc = cc[:9000]
+    if chk.tier == 'quick' and len(cc) > 9000:
+        pinned = [c for c in cc if ':with ' in c[1]]; rest = [c for c in cc if ':with ' not in c[1]]
+        chk.rng.shuffle(rest); cc = pinned + rest[:9000]
     chk.bounded('custom content injection: strict refusal and flag <=> strict re-parse refused', cc, check, classify=lambda c: (c[1].split(':')[2], c[3].split(' ')[0], c[4]),
                 bound='every parseable type (minimal + all-optional) x injection sites x custom kinds x both switch settings' + (' (9000-case subset)' if chk.tier == 'quick' else ''), stop_after=100)
 
